@@ -55,6 +55,8 @@ class Rec(Collector):
             if self.boom.endswith('!done'):   # the failing code had already marked its model complete
                 self.model.complete()
             raise BOOM_KINDS[self.boom](f'boom a={self.a} b={self.b} t={t}')
+        if getattr(self.model, 'style', None) == 'rebinding' and t == 1:
+            self.records = list(self.records)      # the collector replaces its records object (a burn-in trim, a window)
         if isinstance(self.records, dict):
             self.records[t] = (self.id, self.a, self.b, t, self.n)       # a collector that keys its records by timestep
         else:
@@ -125,7 +127,8 @@ BOOM_KINDS = {'RuntimeError': RuntimeError, 'StopIteration': StopIteration, 'Key
               'AgentNotFoundError': Core.AgentNotFoundError, 'DuplicateAgentError': Core.DuplicateAgentError,
               'ComponentNotFoundError': Core.ComponentNotFoundError,
               # the built-in TimeoutError (what a model's own I/O may raise), and errors raised after complete()
-              'TimeoutError': TimeoutError, 'RuntimeError!done': RuntimeError, 'BoomError!done': BoomError}
+              'TimeoutError': TimeoutError, 'RuntimeError!done': RuntimeError, 'BoomError!done': BoomError,
+              'NotImplementedError': NotImplementedError}
 
 
 LIB_ERROR_TYPES = tuple(BOOM_KINDS[k] for k in LIB_ERRORS)
@@ -306,7 +309,8 @@ def run_batch(case, cache=None):
         try:
             got = Batching.batch_run(BModel, params, **kwargs)
             raised = None
-        except (RuntimeError, StopIteration, KeyError, BoomError, AttributeError, TimeoutError) + LIB_ERROR_TYPES as e:
+        except (RuntimeError, StopIteration, KeyError, BoomError, AttributeError, TimeoutError, NotImplementedError) + \
+                LIB_ERROR_TYPES as e:
             got, raised = None, e
         except sched.PoolHang as e:
             raise Violation(f'batch_run never returns and the error of the failing execution never reaches the caller: '
@@ -391,7 +395,7 @@ def extra_cases():
                     yield {'leg': 'sources', 'grid': gname, 'reps': reps, 'life': 2, 'limit': None, 'collectors': 'c0',
                            'procs': procs, 'outcome': oc, 'source': src}
     # models that finish by their own criterion (is_running overridden) / whose clock jumps ahead (event-driven)
-    for style in ('own_done', 'jump', 'own_execute', 'nested_batch', 'dict_records'):
+    for style in ('own_done', 'jump', 'own_execute', 'nested_batch', 'dict_records', 'rebinding'):
         for life, limit in ((3, None), (3, 2), (3, 3), (3, 7), (6, 2), (6, 3), (6, 4), (6, 5), (2, None), (1, 3), (9, 4)):
             for coll in ('c0', 'list'):
                 for procs, oc in ((1, None), (2, [[[0], [1]], [1, 0]])):
@@ -412,19 +416,35 @@ def extra_cases():
 def reused_list_case(case):
     """One ParameterList object used for several batches with its declaration edited in between."""
     reset_library()
-    a_vals = [1, 2]          # the caller keeps this list and grows it between two batches
-    pl = Batching.ParameterList({'a': a_vals, 'b': [5, 6]})
+    a_vals = [2, 3]          # the caller keeps this list and grows it, before the first batch that uses it and between batches
+    pl = Batching.ParameterList({'a': [1, 2], 'b': [5, 6]})
     plan = [('run', [(1, 5), (1, 6), (2, 5), (2, 6)]), ('remove', 'b'), ('run', [(1, 0), (2, 0)]),
-            ('grow', 4), ('run', [(1, 0), (2, 0), (4, 0)]),
-            ('add', ('life', 3)), ('run', [(1, 0), (2, 0), (4, 0)]), ('remove', 'a'), ('add', ('a', [3])), ('run', [(3, 0)]),
-            ('add', ('b', 7)), ('run', [(3, 7)]), ('remove', 'b'), ('add', ('b', [5, 6])), ('run', [(3, 5), (3, 6)])]
+            ('add', ('life', 3)), ('run', [(1, 0), (2, 0)]), ('remove', 'a'), ('add', ('a', [3])), ('run', [(3, 0)]),
+            ('add', ('b', 7)), ('run', [(3, 7)]), ('remove', 'b'), ('add', ('b', [5, 6])), ('run', [(3, 5), (3, 6)]),
+            # the declaration either follows the caller's list or keeps the values it had when it was declared - the same
+            # way in every batch ('run_either' lists both readings)
+            ('remove', 'a'), ('remove', 'b'), ('add', ('a', a_vals)), ('grow', 1),
+            ('run_either', ([(2, 0), (3, 0), (1, 0)], [(2, 0), (3, 0)])), ('grow', 4),
+            ('run_either', ([(2, 0), (3, 0), (1, 0), (4, 0)], [(2, 0), (3, 0)]))]
     life = 2
     n = 0
+    reading = None
     for what, arg in plan:
+        if what == 'run_either':
+            got = Batching.batch_run(BModel, pl, collectors='c0', processes=case['procs'])
+            exps = [[ref_records('c0', a, b, life, 10 ** 9) for a, b in alt] for alt in arg]
+            n += 1
+            fits = [i for i, e in enumerate(exps) if sorted(map(repr, got)) == sorted(map(repr, e)) and reading in (None, i)]
+            if not fits:
+                raise Violation(f'batch {n} over a ParameterList whose value list the caller extended in place: the executions '
+                                f'follow neither the list as it is now nor the list as declared (the same reading in every '
+                                f'batch; processes={case["procs"]})', expected=[_short(e) for e in exps], observed=_short(got))
+            reading = fits[0]
+            continue
         if what == 'remove':
             pl.remove_parameter(arg)
         elif what == 'grow':
-            a_vals.append(arg)      # the list object the parameter was declared with: the declaration is what it holds now
+            a_vals.append(arg)
         elif what == 'add':
             pl.add_parameter(*arg)
             if arg[0] == 'life':
